@@ -112,7 +112,7 @@ def c10b(ck, prog):
     g = frp[0][0]
     descs = [(decision.describe_deep(g, c.args[0], 5), decision.describe_deep(g, c.args[1], 6)) for _, c in frp]
     # first: (ptr, len - CRLF.len()); second: (ptr + mid, CRLF.len())
-    crlf_len = r"(len\(const:CRLF\)|const 2)"
+    crlf_len = r"(len\(const:CRLF\)|len\(const '.r.n'\)|const 2)"
 
     def total_len(g, txt):
         # `len(x)` directly, or a captured variable of the enclosing function that holds it
